@@ -141,3 +141,29 @@ Theorem C14_every_check_needed : forall s0, In s0 sync_steps -> fallible s0 = tr
                  fallible s = true /\ fails s = true).
 Proof. exact Fault_proofs.every_check_needed. Qed.
 Print Assumptions C14_every_check_needed.
+
+(* ------------------------------------------------------------------------------------------ *)
+(* "the merkle page table runs out of buckets -> an error, never a hang": the probe walk is bounded *)
+(* (the decoder's mirror [Image.probe] by its fuel, the code by a multiple of the table size), and  *)
+(* the bound is complete: the triangular walk has period 2 * buckets and its second half mirrors   *)
+(* the first, so a walk of [factor * buckets] steps (any factor >= 1) that gives up has examined    *)
+(* every bucket an unbounded walk could ever reach.                                                 *)
+From Coq Require Import NArith.
+From Nomt Require Import Image Probe_proofs.
+
+Theorem C14_probe_period : forall n b s k, (0 < n)%N ->
+  seqpos n b s (k + N.to_nat (2 * n)) = seqpos n b s k.
+Proof. exact Probe_proofs.probe_period. Qed.
+Print Assumptions C14_probe_period.
+
+Theorem C14_probe_reach_half : forall n b k, (0 < n)%N ->
+  exists j, (j < N.to_nat n)%nat /\ seqpos n b 0 j = seqpos n b 0 k.
+Proof. exact Probe_proofs.probe_reach_half. Qed.
+Print Assumptions C14_probe_reach_half.
+
+Theorem C14_probe_bound_complete : forall factor fuel mm n target b,
+  (0 < n)%N -> (1 <= factor)%N -> (N.to_nat (factor * n) <= fuel)%nat ->
+  probe fuel mm n target b 0 = Some (WProbeFuel, target, 0%N) ->
+  forall k, seqpos n b 0 k <> target.
+Proof. exact Probe_proofs.probe_bound_complete. Qed.
+Print Assumptions C14_probe_bound_complete.
